@@ -48,6 +48,7 @@ type Engine struct {
 	loadTime   time.Duration
 	cpuSem     chan struct{}
 	noFacts    bool
+	debugPicks bool
 }
 
 func (e *Engine) fnStat(fn *ssa.Function) *fnStat {
@@ -176,6 +177,7 @@ type Summary struct {
 	PathsWithObl int
 	Observations []string
 	Wanted       map[string]bool
+	Picks, Concretized int
 }
 
 type ExploreCfg struct {
@@ -289,13 +291,15 @@ func (e *Engine) explore(harness string, cfg ExploreCfg) *Summary {
 				sum.SymBranches += res.SymBranches
 				sum.Steps += int64(res.Steps)
 				sum.Transitions += res.Transitions
+				sum.Picks += res.Picks
+				sum.Concretized += res.Concretized
 				if res.Goroutines > sum.MaxGoroutines {
 					sum.MaxGoroutines = res.Goroutines
 				}
 				if res.Obligations > 0 {
 					sum.PathsWithObl++
 				}
-				if len(sum.Observations) < 50 {
+				if len(sum.Observations) < 50 || e.debugPicks {
 					sum.Observations = append(sum.Observations, res.Observations...)
 				}
 				if cfg.MaxPaths > 0 && sum.Paths >= cfg.MaxPaths && (len(stack) > 0 || active > 0) {
